@@ -71,6 +71,11 @@ CALLS = {
     "search_en": S("on 21 October 2005 and 3 months later and yesterday", languages=["en"]),
     "fr_nolocale": P("02/03/2012", languages=["fr"], settings={"PREFER_LOCALE_DATE_ORDER": False}),
     "en_tomorrow": P("tomorrow", languages=["en"]),
+    # a Settings *instance* passed by the caller (apply_settings accepts dict or Settings)
+    "search_en_inst": {"op": "search", "text": "foo 12 January 2020", "kw": {"languages": ["en"], "settings_obj": {"PREFER_DATES_FROM": "past"}}},
+    "en_skipfoo_jan": P("12 January 2020", languages=["en"], settings={"SKIP_TOKENS": ["foo"]}),
+    "parse_en_inst": {"op": "parse", "s": "02/03/2012", "kw": {"languages": ["fr"], "settings_obj": {"PREFER_LOCALE_DATE_ORDER": False}}},
+    "hijri": {"op": "hijri", "s": "01-02-1440"},
     "search_en_set": S("on 3 March 2012 and 2 days later", languages=["en"], settings={"PREFER_DAY_OF_MONTH": "first"}),
     "slot_fr_first": {"op": "get_date_data", "slot": 1, "ctor": {"languages": ["fr"], "settings": {"PREFER_DAY_OF_MONTH": "first"}}, "s": "mars 2015"},
     "slot_en_now": {"op": "get_date_data", "slot": 2, "ctor": {"languages": ["en"], "settings": {"PREFER_DAY_OF_MONTH": "first"}}, "s": "now"},
@@ -92,6 +97,7 @@ PAIRS_QUICK = [
     ("skip-tokens-or-normalize", "en_skipfoo", "en_skipbar", True), ("skip-tokens-or-normalize", "fr_norm_on", "fr_norm_off", True),
     ("search", "search_fr", "search_de", True), ("search", "search_en", "fr_num", True), ("search", "search_en", "en_tomorrow", True), ("search", "search_fr", "fr_rel", True),
     ("language-or-order", "fr_num", "fr_nolocale", True), ("skip-tokens-or-normalize", "en_skipfoo", "en_plain", True),
+    ("settings-instance", "search_en_inst", "en_skipfoo_jan", True), ("settings-instance", "parse_en_inst", "fr_num", True), ("language-or-order", "fr_num", "hijri", True),
     ("live-instance", "slot_fr_first", "parse_en_first", True),
 ]
 PAIRS_MORE = [
@@ -137,6 +143,15 @@ def _setup(p):
         if op["op"] in ("jalali", "hijri"):
             import dateparser.calendars.hijri  # noqa: F401
             import dateparser.calendars.jalali  # noqa: F401
+    # a Settings *instance* the caller passes is built by the caller before the concurrent calls
+    # start: constructing it (Settings.replace reads the module default) is not one of the calls
+    for op in calls:
+        so = (op.get("kw") or {}).get("settings_obj")
+        if so is not None:
+            from dateparser.conf import settings as _default_settings
+            from simkit.canon import dec_value
+
+            op["kw"]["__settings_instance__"] = _default_settings.replace(**dec_value(so))
     world.refresh(force=True)
     if p.get("warm"):
         for op in calls:
@@ -181,7 +196,7 @@ def run_plan(p):
         status = "stall:" + str(e)
     res = {
         "status": status, "outs": [holder.get(i) for i in range(len(fns))], "counts": sched.count, "switch_sites": sched.switch_sites,
-        "blocks": sched.block_events, "log": sched.log,
+        "blocks": sched.block_events, "log": sched.log, "lock_timeouts": sched.lock_timeouts,
     }
     if p.get("record"):
         res["trace"] = sched.trace
